@@ -47,6 +47,26 @@ Theorem C16_manylinux_incompatible e archs :
 Proof. intros [H|H]; unfold manylinux_tags; rewrite H; [reflexivity | now rewrite many_no_glibc]. Qed.
 Print Assumptions C16_manylinux_incompatible.
 
+(* 3b. the ABI decision: from the ELF header of the running executable for armv7l / i686 lists (here on any image the encoder
+       produces), otherwise membership in the fixed architecture set; and the three kinds of `_manylinux` policy module *)
+Theorem C16_abi_probe s exe archs : wf_spec s ->
+  is_linux_armhf (parse_exe (Some (encode s))) =
+    (negb (s_is64 s) && negb (s_big s) && (s_machine s =? 40) && (N.land (s_flags s) 4278190080 =? 83886080) && (N.land (s_flags s) 1024 =? 1024)) /\
+  is_linux_i686 (parse_exe (Some (encode s))) = (negb (s_is64 s) && negb (s_big s) && (s_machine s =? 3)) /\
+  (mem s_armv7l archs = false -> mem s_i686 archs = false -> have_compatible_abi exe archs = existsb (fun a => mem a allowed_archs) archs).
+Proof. intros W. destruct (abi_probe_encoded s W) as [H1 H2]. split; [exact H1|]. split; [exact H2 | apply abi_without_probe]. Qed.
+Print Assumptions C16_abi_probe.
+Theorem C16_policy_kinds arch M m :
+  policy None arch M m = true /\
+  (forall f a1 a2 a3, policy (Some {| p_func := Some f; p_1 := a1; p_2010 := a2; p_2014 := a3 |}) arch M m =
+                      match f M m arch with FNone => true | FBool b => b end) /\
+  (forall a1 a2 a3, policy (Some {| p_func := None; p_1 := a1; p_2010 := a2; p_2014 := a3 |}) arch M m =
+                    if (M =? 2)%nat && (m =? 5)%nat then attr_or_true a1
+                    else if (M =? 2)%nat && (m =? 12)%nat then attr_or_true a2
+                    else if (M =? 2)%nat && (m =? 17)%nat then attr_or_true a3 else true).
+Proof. exact (policy_kinds arch M m). Qed.
+Print Assumptions C16_policy_kinds.
+
 (* 4. membership: a tag is offered iff its architecture was given, its version is in range, the policy does not veto it, and
       (for an alias) the version has one *)
 Theorem C16_manylinux_membership archs M m pm k a b ar :
